@@ -3,7 +3,7 @@ NEXT Next
 CONSTANTS
   MAXSIZE = 2
   MaxSkip = 4
-  Hashes = {0, 1, 2, 3, 4, 8}
+  Hashes = {0, 1, 2, 4, 8}
   NSk = 3
   MaxIns = 4
   MaxMrg = 2
